@@ -38,6 +38,8 @@ type CfgScript struct {
 	// cross
 	Key string `json:"key"` // paasign | sess | sessenc | userenc
 	Len int    `json:"len"`
+	// Store: session store of both gateways (cookie | file; "" = cookie)
+	Store string `json:"store,omitempty"`
 }
 
 // KerberosFiles writes a keytab and a krb5.conf usable by the gateway.
@@ -362,7 +364,8 @@ func (r *Runner) RunCross(s *CfgScript, tw *TraceWriter) error {
 	}
 	mk := func() (*Inst, error) {
 		// (the two gateways run on one machine: same home and temporary directories)
-		cfg := ScriptCfg{TokenAuth: true, Auth: "openid", Sel: "roundrobin", Hosts: [][]string{{"H1", ":", "PA"}}, VerifyIp: false, UserTok: "enc", Template: "{{ username }}::{{ token }}", SharedEnv: true}
+		cfg := ScriptCfg{TokenAuth: true, Auth: "openid", Sel: "roundrobin", Hosts: [][]string{{"H1", ":", "PA"}}, VerifyIp: false, UserTok: "enc", Template: "{{ username }}::{{ token }}", SharedEnv: s.ID}
+		cfg.Store = s.Store
 		cfg.KeyOverride = map[string]string{s.Key: key}
 		if s.Len == 0 {
 			cfg.KeyOverride = map[string]string{s.Key: "-"}
